@@ -1,22 +1,26 @@
 --------------------------- MODULE MC_ErrorSource ---------------------------
 EXTENDS ErrorSource, Json
 CONSTANTS MaxFields, EmitCases, FullNamed3
-VARIABLES l, named, isVariant
+VARIABLES l, named, isVariant, comp
 
 FieldSpace(nm) ==
     {f \in [attr : Attrs, name : IF nm THEN Names ELSE {"other"}, ty : Types] :
         \* `source` on a Backtrace-typed field is not a supported input (it is no Error)
-        ~(SrcFlag(f.attr) = "yes" /\ f.ty = "bt")}
+        /\ ~(SrcFlag(f.attr) = "yes" /\ f.ty = "bt")
+        \* the two-parameter spellings only where they matter (keeps the space small)
+        /\ (f.attr \in {"nb_source", "source_nb"} => f.ty \in {"err", "generic"})
+        /\ (f.attr \in {"ns_backtrace", "backtrace_ns"} => f.ty \in {"err", "bt"})}
 
-Init == l = <<>> /\ named \in BOOLEAN /\ isVariant \in BOOLEAN
+Init == /\ l = <<>> /\ named \in BOOLEAN /\ isVariant \in BOOLEAN
+        /\ comp \in {"unit", "ignored", "sourced"} /\ (~isVariant => comp = "unit")
 Add  == /\ Len(l) < MaxFields
         /\ \E f \in FieldSpace(named) :
              /\ (named /\ f.name # "other" => \A i \in 1..Len(l) : l[i].name # f.name)   \* distinct names
              /\ (Len(l) = 2 /\ named /\ ~FullNamed3 => f.ty \in {"err", "bt"} /\ f.attr \in {"none", "ignore", "source"})
              /\ l' = Append(l, f)
-        /\ UNCHANGED <<named, isVariant>>
+        /\ UNCHANGED <<named, isVariant, comp>>
 Next == Add
-Spec == Init /\ [][Next]_<<l, named, isVariant>>
+Spec == Init /\ [][Next]_<<l, named, isVariant, comp>>
 
 \* what the documentation supports: the detected backtrace field is a Backtrace (or is the source
 \* itself, whose provide() is then delegated to), the source field is an error
@@ -30,6 +34,7 @@ Supported ==
         /\ (s[1] = "field" /\ b[1] = "field" => l[s[2]].ty # "box")
 
 P_C09_Select       == Supported => Select(l, named, isVariant)
+P_C09_Exhaustive   == isVariant => Exhaustive(l, named, comp)
 P_C09_NoPanic      == NoPanic(l, named)
 P_C09_Bound        == Supported => BoundRight(l, named)
 P_C09_IgnoreStable == IgnoreStable(l, named)
@@ -38,7 +43,7 @@ P_Ext_Provide      == Supported => Provide(l, named, isVariant)
 P_C09_Sane == LET s == DocSource(l, named) IN
               s[1] = "field" => s[2] \in Enabled(l) /\ SrcFlag(l[s[2]].attr) # "no"
 
-CaseRec == [l |-> l, named |-> named, isVariant |-> isVariant, doc |-> DocSource(l, named),
+CaseRec == [l |-> l, named |-> named, isVariant |-> isVariant, comp |-> comp, compDoc |-> DocCompanion(comp), doc |-> DocSource(l, named),
             bt |-> DocBacktrace(l, named), impl |-> ImplSource(l, named, isVariant), supported |-> Supported,
             provide |-> DocProvide(l, named)]
 Emit == EmitCases => PrintT(<<"CASE", ToJson(CaseRec)>>)
